@@ -130,6 +130,7 @@ def prelude(n_families=None):
         struct("U", [field("s", "string")]),
         struct("K", [chunked([field("s", "string"), brk(), field("t", "char")])]),
         struct("O", [field("a", "char"), field("b", "char", optional="true")]),
+        struct("F", [field("tag", "string", length="2", padded="true"), field("e", "E1"), field("inner", "P"), array("xs", "char", length="2")]),
     ]
 
 
@@ -187,7 +188,7 @@ def leaf_templates():
 
     for typ in ("byte", "char", "short", "three", "int", "bool", "bool:short", "E1", "E1:short", "E2", "E3"):
         one(f"int:{typ}", "integers", lambda n, typ=typ: field(n, typ))
-    for s in ("P", "V", "U", "K", "O"):
+    for s in ("P", "V", "U", "K", "O", "F"):
         one(f"struct:{s}", "structs", lambda n, s=s: field(n, s))
     one("str", "strings", lambda n: field(n, "string"))
     one("estr", "strings", lambda n: field(n, "encoded_string"))
@@ -230,6 +231,7 @@ def leaf_templates():
     one("arr:char2", "arrays", lambda n: array(n, "char", length="2"))
     one("arr:P", "arrays", lambda n: array(n, "P"))
     one("arr:V", "arrays", lambda n: array(n, "V"))
+    one("arr:F", "arrays", lambda n: array(n, "F"))
     one("arr:E1", "arrays", lambda n: array(n, "E1"))
     for el in ("U", "char", "K"):
         one(f"darr:{el}", "arrays", lambda n, el=el: array(n, el, delimited="true"))
@@ -250,6 +252,8 @@ RED_IDS = (
 )
 
 FLAG_IDS = ("opt:char", "dummy:char", "break", "int:char")
+NEST_IDS = ("str", "int:char")
+HOISTED_CHAR = (("char", "1", "2"), ("char", "1", "2", "hoist"))
 
 SWITCH_SHAPES = ("one", "two", "case+default", "empty+default")
 SWITCH_ON = (("char", "1", "2"), ("E1", "A", "B"), ("E2", "Big", "7"))
@@ -287,16 +291,25 @@ class BodyShape:
     def build(self, nm=None):
         nm = nm or Namer()
         out = []
-        for it in self.items:
+        hoisted = {}
+        for idx, it in enumerate(self.items):
+            if it[0] == "switch" and len(it[1]) > 3:
+                # the switch field is declared at the start of the body, not immediately before its switch
+                hoisted[idx] = nm()
+                out.append(field(hoisted[idx], it[1][0]))
+        for idx, it in enumerate(self.items):
             if it[0] == "leaf":
                 out += it[1]["make"](nm)
             elif it[0] == "chunked":
                 out.append(chunked(it[1].build(nm)))
             else:
                 _, on, shape, bodies = it
-                typ, v1, v2 = on
-                k = nm()
-                out.append(field(k, typ))
+                typ, v1, v2 = on[:3]
+                if idx in hoisted:
+                    k = hoisted[idx]
+                else:
+                    k = nm()
+                    out.append(field(k, typ))
                 b1 = bodies[0].build(nm)
                 b2 = bodies[1].build(nm)
                 if shape == "one":
@@ -318,7 +331,7 @@ class BodyShape:
             elif it[0] == "chunked":
                 parts.append("chunked[" + it[1].ident() + "]")
             else:
-                parts.append(f"switch<{it[1][0]},{it[2]}>[" + "|".join(b.ident() for b in it[3]) + "]")
+                parts.append(f"switch<{it[1][0]},{it[2]}{',hoisted' if len(it[1]) > 3 else ''}>[" + "|".join(b.ident() for b in it[3]) + "]")
         return " ; ".join(parts)
 
 
@@ -370,12 +383,16 @@ def grammar(tier):
     # G_flag: the interplay of the generator's context flags (optional reached, dummy reached, chunked, switch
     # inheritance) over a 4-template alphabet, two nodes deeper than the general grammar
     flag = [t for t in temps if t["id"] in FLAG_IDS]
+    # G_nest: container nesting (chunked x switch x case bodies) around an unbounded string and a char
+    nest = [t for t in temps if t["id"] in NEST_IDS]
     if tier == "quick":
         add(enumerate_bodies(temps, 2))
         add(enumerate_bodies(red, 3, switch_on=SWITCH_ON[:2]))
-        add(enumerate_bodies(flag, 4, switch_on=SWITCH_ON[:1]))
+        add(enumerate_bodies(flag, 4, switch_on=HOISTED_CHAR))
+        add(enumerate_bodies(nest, 4, switch_on=HOISTED_CHAR))
     else:
-        add(enumerate_bodies(flag, 5, switch_on=SWITCH_ON[:1]))
+        add(enumerate_bodies(flag, 5, switch_on=HOISTED_CHAR))
+        add(enumerate_bodies(nest, 5, switch_on=HOISTED_CHAR))
         add(enumerate_bodies(temps, 2))
         add(enumerate_bodies(red, 4, switch_on=SWITCH_ON[:2]))
         add(enumerate_bodies(temps, 3, switch_on=SWITCH_ON[:1]))
